@@ -18,16 +18,11 @@ Definition unfreg (s : state) (e : nat) (w : waker) : bool :=
   negb (getev s e).(fired) && bool_decide (w ∈ (getev s e).(wakers)).
 (* calling w (now) ends in WakeQueue.wake: directly, through a DrainWaker that holds it, through a DoubleWaker *)
 Definition dbl_q (s : state) (k : nat) : bool := match getdbl s k with Some (WQueue, _) => true | _ => false end.
+Definition effw (s : state) (w : waker) : bool := match w with WQueue => true | WDouble k => dbl_q s k | _ => false end.
 Definition effq (s : state) (w : waker) : bool :=
   match w with
-  | WQueue => true
-  | WDouble k => dbl_q s k
-  | WDrain d => match getdw s d with
-                | (DWWillWake, Some WQueue) => true
-                | (DWWillWake, Some (WDouble k)) => dbl_q s k
-                | _ => false
-                end
-  | _ => false
+  | WDrain d => match getdw s d with (DWWillWake, Some w') => effw s w' | _ => false end
+  | _ => effw s w
   end.
 Definition dw_woken (s : state) (d : nat) : bool := match (getdw s d).1 with DWWoken => true | _ => false end.
 (* the wake-up of DrainWaker d is guaranteed (before wake_with has been called) *)
@@ -35,14 +30,13 @@ Definition gd (s : state) (e d : nat) : bool := unfreg s e (WDrain d) || posb (n
 Definition gq (s : state) (e : nat) : bool := unfreg s e WQueue || posb (np (is_wake WQueue) s).
 Definition gt (s : state) (c e : nat) : bool := unfreg s e (WThread c) || posb (np (is_wake (WThread c)) s).
 
-Definition allframes (s : state) : list frame := concat (stacks s).
-(* some wake-up that reaches WakeQueue is registered with e (unfired), or in flight, or about to be installed *)
+(* some frame of some actor satisfies f *)
+Definition exf (f : frame -> bool) (s : state) : bool := existsb (existsb f) (stacks s).
+(* some wake-up that reaches WakeQueue is registered with e (unfired), or in flight, or about to be installed by wake_with *)
+Definition cfr (s : state) (e : nat) (fr : frame) : bool :=
+  match fr with FWake w => effq s w | FWakeWith d w => effw s w && gd s e d | _ => false end.
 Definition cover (s : state) (e : nat) : bool :=
-  (negb (getev s e).(fired) && existsb (effq s) (getev s e).(wakers))
-  || existsb (fun fr => match fr with
-                        | FWake w => effq s w
-                        | FWakeWith d w => effq s w && gd s e d
-                        | _ => false end) (allframes s).
+  (negb (getev s e).(fired) && existsb (effq s) (getev s e).(wakers)) || exf (cfr s e) s.
 
 Definition hsusp (s : state) : option nat := match s.(jobs) with j :: _ => susp j | [] => None end.
 Definition awoken (s : state) : bool := match s.(qs) with AwokenWhileRunning => true | _ => false end.
